@@ -14,6 +14,8 @@
 //         codes also carry, after each step, one '+' (eOP_PREDICATE_WITH_POSITION) or '-' (eOP_PREDICATE) per predicate
 //         amb: 1 where getMatchScore(N) under a singleton ambient context node list differs from the value under the
 //              all-nodes ambient list (must be all 0: the caller's node list is not the step's node list)
+//         alts: for alternative 0, 1, …, k (k = number of alternatives, i.e. one past the last) the scores of every node
+//               from getMatchScore(node, resolver, ctx, theAlternative), comma separated
 //         m: XPath::getMatchScore(N) for every node N of the current document (0 none,1 nodetest,2 nswild,3 qname,4 other)
 //         s: the *defining* side evaluated by the real expression engine: 1 iff some ancestor-or-self A of N has
 //            N in XPath::execute(P as expression, context A)
@@ -274,7 +276,23 @@ int main()
                             }
                         }
                     }
-                    o << "codes=" << stepCodes(*pat) << " amb=" << amb << " m=" << m << " s=" << sp;
+                    // the per-alternative entry point: scores of every node for alternative 0..k (k = one past the last)
+                    const std::string codes = stepCodes(*pat);
+                    size_t nalt = 1;
+                    for (size_t k = 0; k < codes.size(); ++k) if (codes[k] == ';') ++nalt;
+                    std::string alts;
+                    {
+                        MutableNodeRefList all(*xercesc::XMLPlatformUtils::fgMemoryManager);
+                        for (size_t i = 0; i < n; ++i) all.addNode(d->nodes[i]);
+                        XPathExecutionContext::ContextNodeListPushAndPop push(ec, all);
+                        for (size_t a = 0; a <= nalt; ++a)
+                        {
+                            if (a) alts.push_back(',');
+                            for (size_t i = 0; i < n; ++i)
+                                alts.push_back(char('0' + int(pat->getMatchScore(d->nodes[i], resolver, ec, a))));
+                        }
+                    }
+                    o << "codes=" << codes << " amb=" << amb << " alts=" << alts << " m=" << m << " s=" << sp;
                 }
                 catch (const XSLException&)
                 {
